@@ -3,7 +3,7 @@
    specification (headers, versions, streams) in Proofs/XfrSpec.v. *)
 From DV Require Import Base.Prelude Model.XfrM Proofs.XfrSpec.
 From DV Require Proofs.XfrZone Proofs.XfrDiff.
-From DV Require Proofs.XfrSafety Proofs.XfrBasic Proofs.XfrIxfr Proofs.XfrAxfr Proofs.XfrFault Proofs.XfrOrder Proofs.XfrRefresh Proofs.XfrGlue Proofs.XfrTsig Proofs.XfrSections Proofs.XfrGroup Proofs.XfrSoaFaults Proofs.XfrTsigLink Proofs.XfrAddStart Proofs.XfrBody Proofs.XfrGeneral Proofs.XfrGeneralAxfr Proofs.XfrLegacy Proofs.XfrGeneralOrder Proofs.XfrInversion Proofs.XfrInversionGen.
+From DV Require Proofs.XfrSafety Proofs.XfrBasic Proofs.XfrIxfr Proofs.XfrAxfr Proofs.XfrFault Proofs.XfrOrder Proofs.XfrRefresh Proofs.XfrGlue Proofs.XfrTsig Proofs.XfrSections Proofs.XfrGroup Proofs.XfrSoaFaults Proofs.XfrTsigLink Proofs.XfrAddStart Proofs.XfrBody Proofs.XfrGeneral Proofs.XfrGeneralAxfr Proofs.XfrLegacy Proofs.XfrGeneralOrder Proofs.XfrInversion Proofs.XfrInversionGen Proofs.XfrRefreshGen.
 From DV Require Model.TsigM.
 From Coq Require Import Sorting.Permutation.
 
@@ -1007,3 +1007,53 @@ Theorem ixfr_outcome_dichotomy_any : forall fin z0 ser ws rest,
      XfrInversionGen.m_secs z0 secs = Ok z1 /\ XfrInversionGen.m_soa z1 b = Ok z').
 Proof. exact XfrInversionGen.ixfr_outcome_dichotomy_any. Qed.
 Print Assumptions ixfr_outcome_dichotomy_any.
+
+
+(* ==== refreshing a zone of any content (the refresh theorems for general versions) ==== *)
+Theorem refresh_converges_general : forall v0 chain z table recs ws,
+  XfrGeneral.chain_ok_g v0 chain -> zeq z (zone_of v0) ->
+  find_row table (Some (v_serial v0)) = Some ws ->
+  XfrGeneralOrder.ixfr_response_p v0 chain recs -> chunking tIXFR recs ws ->
+  exists z', refresh1 z table = Ok (tIXFR, Some (v_serial v0), Some (v_serial v0), 0, z')
+             /\ zeq z' (zone_of (last chain v0))
+             /\ zone_serial z' = Some (v_serial (last chain v0)).
+Proof. exact XfrRefreshGen.refresh_converges_general. Qed.
+Print Assumptions refresh_converges_general.
+
+Theorem refresh_full_general : forall v z table B ws,
+  XfrGeneral.version_wf_g v -> zone_serial z = None ->
+  find_row table None = Some ws ->
+  Permutation B (body (v_rest v)) -> chunking tAXFR (soa_rr v :: B ++ [soa_rr v]) ws ->
+  exists z', refresh1 z table = Ok (tAXFR, None, None, 0, z')
+             /\ zeq z' (zone_of v) /\ zone_serial z' = Some (v_serial v).
+Proof. exact XfrRefreshGen.refresh_full_general. Qed.
+Print Assumptions refresh_full_general.
+
+Theorem refresh_axfr_style_general : forall v z zs table ws,
+  XfrGeneral.version_wf_g v -> v_rest v <> [] -> zone_serial z = Some zs ->
+  v_serial v <> zs -> serial_lt (v_serial v) zs = false ->
+  find_row table (Some zs) = None -> find_row table None = Some ws ->
+  chunking tIXFR (axfr_stream v) ws ->
+  exists z', refresh1 z table = Ok (tIXFR, Some zs, Some zs, 0, z')
+             /\ zeq z' (zone_of v) /\ zone_serial z' = Some (v_serial v).
+Proof. exact XfrRefreshGen.refresh_axfr_style_general. Qed.
+Print Assumptions refresh_axfr_style_general.
+
+Theorem refreshes_converge_general : forall v tables vfin, XfrRefreshGen.refresh_plan_g v tables vfin ->
+  forall z, zeq z (zone_of v) ->
+  length (refreshes z tables) = length tables
+  /\ Forall XfrRefresh.refresh_ok (refreshes z tables)
+  /\ zeq (XfrRefresh.final_zone z (refreshes z tables)) (zone_of vfin).
+Proof. exact XfrRefreshGen.refreshes_converge_general. Qed.
+Print Assumptions refreshes_converge_general.
+
+Theorem try_first_falls_back_general : forall v0 chain z tbu tbt wu recs ws,
+  XfrGeneral.chain_ok_g v0 chain -> zeq z (zone_of v0) ->
+  find_row tbu (Some (v_serial v0)) = Some [wu] ->
+  header_ok tIXFR wu -> w_records wu = [soa_rr (last chain v0)] ->
+  find_row tbt (Some (v_serial v0)) = Some ws ->
+  XfrGeneralOrder.ixfr_response_p v0 chain recs -> chunking tIXFR recs ws ->
+  (exists z', xfr_top z 1 tbu tbt = Ok (0, z') /\ zeq z' (zone_of (last chain v0)))
+  /\ xfr_top z 2 tbu tbt = Ok (eUseTCP, z).
+Proof. exact XfrRefreshGen.try_first_falls_back_general. Qed.
+Print Assumptions try_first_falls_back_general.
